@@ -801,7 +801,7 @@ pub fn run(args: &Args) {
 		if ai >= 4 && !args.thorough && ai != 4 + (args.seed as usize % 5) {
 			continue; // quick tier: one of the five long stems, chosen by the seed
 		}
-		let path = format!("/repo/crates/examples/assets/{}", a);
+		let path = format!("{}/crates/examples/assets/{}", std::env::var("KIRA_REPO").unwrap_or_else(|_| "/repo".to_string()), a);
 		let bytes = match std::fs::read(&path) {
 			Ok(b) => b,
 			Err(_) => {
